@@ -45,13 +45,43 @@ __CPROVER_ensures((__CPROVER_return_value != 0 && a == g_memcmp_watch) ==>
      (__CPROVER_return_value < 0) == (C19_UC(a, g_memcmp_d) < C19_UC(b, g_memcmp_d)) &&
      C19_IMP(g_memcmp_k < g_memcmp_d, C19_UC(a, g_memcmp_k) == C19_UC(b, g_memcmp_k))));
 
+/* "p is a string", stated for the harness's strings: the object p points into ends at a NUL (earlier NULs allowed) */
+#define C19_CSTR(p)                                                                                         \
+    ((p) != NULL && __CPROVER_OBJECT_SIZE(p) >= 1 &&                                                        \
+     (size_t)__CPROVER_POINTER_OFFSET(p) < __CPROVER_OBJECT_SIZE(p) &&                                      \
+     __CPROVER_r_ok((p), __CPROVER_OBJECT_SIZE(p) - (size_t)__CPROVER_POINTER_OFFSET(p)) &&                  \
+     ((const char *)(p))[__CPROVER_OBJECT_SIZE(p) - 1 - (size_t)__CPROVER_POINTER_OFFSET(p)] == 0)
 /* ------------------------------------------------------------------ strlen (ISO 7.24.6.3) */
-size_t g_strlen_L; /* in: witness of "s is a string": s[0..L] readable and s[L] == 0 (earlier NULs allowed) */
-size_t g_strlen_k; /* in: ghost index */
+size_t g_strlen_k;        /* in: ghost index */
+const char *g_strlen_ps;  /* state: argument of the previous call */
+size_t g_strlen_pr;       /* state: its result */
+/* A contract is a relation, not a function: two calls on the same string may be given different results that both satisfy it
+ * (the ghost-index clause constrains one index only).  __MIN__(strlen(s), x) evaluates strlen(s) twice, so the contract also says
+ * that a call with the same argument as the previous call returns the same value; this is sound for callers that do not write the
+ * string between the two calls (rshell_help writes only the answer buffer; stated in the unit). */
 size_t strlen(const char *s)
-__CPROVER_requires(g_strlen_L < ((size_t)1 << 40) && __CPROVER_r_ok(s, g_strlen_L + 1) && s[g_strlen_L] == 0)
-__CPROVER_assigns()
-__CPROVER_ensures(__CPROVER_return_value <= g_strlen_L && s[__CPROVER_return_value] == 0 &&
-                  C19_IMP(g_strlen_k < __CPROVER_return_value, s[g_strlen_k] != 0));
+__CPROVER_requires(C19_CSTR(s))
+__CPROVER_assigns(g_strlen_ps, g_strlen_pr)
+__CPROVER_ensures(__CPROVER_return_value <= __CPROVER_OBJECT_SIZE(s) - 1 - (size_t)__CPROVER_POINTER_OFFSET(s) && s[__CPROVER_return_value] == 0 &&
+                  C19_IMP(g_strlen_k < __CPROVER_return_value, s[g_strlen_k] != 0))
+__CPROVER_ensures(__CPROVER_old(g_strlen_ps) == s ==> __CPROVER_return_value == __CPROVER_old(g_strlen_pr))
+__CPROVER_ensures(g_strlen_ps == s && g_strlen_pr == __CPROVER_return_value);
+
+/* ------------------------------------------------------------------ strcmp (ISO 7.24.4.2), as the shell dispatchers use it
+ * The dispatchers only test the result against 0 ("the first token names this command"), so string equality stays an abstract
+ * relation here: the contract fixes which calls are legal (both arguments are strings) and lets the harness observe the result of
+ * ONE call, the one whose second argument is g_strcmp_watch (the name of the ghost table entry).  */
+const char *g_strcmp_watch; /* in */
+int g_strcmp_res;           /* out (watched call): the result */
+int g_strcmp_seen;          /* out (watched call): 1 */
+int g_strcmp_calls;         /* out: number of calls */
+#ifndef REPLAY
+int strcmp(const char *a, const char *b)
+__CPROVER_requires(C19_CSTR(a) && C19_CSTR(b))
+__CPROVER_assigns(g_strcmp_calls; b == g_strcmp_watch: g_strcmp_res, g_strcmp_seen)
+__CPROVER_ensures(g_strcmp_calls == __CPROVER_old(g_strcmp_calls) + 1)
+__CPROVER_ensures(b == g_strcmp_watch ==> (g_strcmp_res == __CPROVER_return_value && g_strcmp_seen == 1))
+__CPROVER_ensures(__CPROVER_return_value == 0 ==> a[0] == b[0]);
+#endif
 
 #endif
